@@ -50,6 +50,10 @@ class _PokTranslator(_util.OverrideableDataDesc):
         return func
 
     def __init__(self, func, posoargs=(), kwoargs=(), **kwargs):
+        if func is self:
+            # __new__ handed back an already prepared translator (nothing
+            # to convert): do not initialise it again around itself
+            return
         update_wrapper(self, func)
         try:
             self.__self__ = func.__self__
@@ -226,6 +230,11 @@ def _kwoargs_start(start, _kwoargs, func, *args, **kwargs):
                 kwoarg_names.add(param.name)
         elif param.kind != param.POSITIONAL_ONLY:
             break # no more POKs now
+    if not found and 'original' in kwargs:
+        # re-applied while binding: the conversion was already carried over
+        # by another modifier of the stack
+        found = any(param.name == start and param.kind == param.KEYWORD_ONLY
+                    for param in sig)
     if not found:
         raise ValueError('{0!r} not found in {1.__name__}{2}'.format(
             start, func, sig))
@@ -281,6 +290,12 @@ def _posoargs_end(end, _posoargs, func, *args, **kwargs):
                 found = True
         elif param.kind != param.POSITIONAL_ONLY:
             break # no more POKs now
+    if not found and 'original' in kwargs:
+        # re-applied while binding: the end parameter was already made
+        # positional-only by another modifier of the stack, or it was the
+        # parameter consumed by the binding
+        posoarg_names = set(_posoargs)
+        found = True
     if not found:
         raise ValueError('{0!r} not found in {1.__name__}{2}'.format(
             end, func, sig))
